@@ -93,6 +93,12 @@ type Step struct {
 	Pfb   *JProof `json:"pfb,omitempty"`
 	N     uint64  `json:"n,omitempty"`
 	Roots []string `json:"roots,omitempty"`
+	// adversary family: the input domain of a state
+	Live      []int    `json:"live,omitempty"`
+	Alphabet  []string `json:"alphabet,omitempty"`
+	Positions []JPos   `json:"positions,omitempty"`
+	MaxClaim  int      `json:"maxclaim,omitempty"`
+	MaxProof  int      `json:"maxproof,omitempty"`
 }
 
 // Expect is the expected observation after the step (union over families).
